@@ -62,3 +62,75 @@ package cashu
 //@   safety C06
 //@   fresh
 //@   ensures @built result != nil && result.Detail == detail && result.Code == code
+
+// ---- tokens (C14): decoding is total, accessors never panic, amounts are sums
+
+//@ func DecodeToken
+//@   tags C14
+//@   safety C14 C06
+
+//@ func DecodeTokenV3
+//@   tags C14
+//@   safety C14 C06
+//@   ensures @nonnil [C14] err == nil ==> r0 != nil
+
+//@ func DecodeTokenV4
+//@   tags C14
+//@   safety C14 C06
+//@   ensures @nonnil [C14] err == nil ==> r0 != nil
+
+//@ func (TokenV3).Mint
+//@   tags C14
+//@   safety C14 C06
+
+//@ func (TokenV4).Mint
+//@   tags C14
+//@   safety C14 C06
+
+//@ func (TokenV3).Serialize
+//@   tags C14
+//@   safety C14 C06
+
+//@ func (TokenV4).Serialize
+//@   tags C14
+//@   safety C14 C06
+
+//@ func (TokenV3).Proofs
+//@   tags C14
+//@   safety C14 C06
+//@   fresh
+//@   ensures @sum [C14] sum.proof.amount(seq(result), len(result)) == sum.v3(seq(t.Token), old(heap("HS.cashu.Proof")), len(t.Token))
+//@   loop range(t.Token) invariant 0 <= i && i <= len(t.Token) && sum.proof.amount(seq(proofs), len(proofs)) == sum.v3(seq(t.Token), old(heap("HS.cashu.Proof")), i) && (forall k :: 0 <= k && k < len(t.Token) ==> len(t.Token[k].Proofs) >= 0 && seq(t.Token[k].Proofs) == old(seq(t.Token[k].Proofs)))
+
+//@ func (TokenV3).Amount
+//@   tags C14
+//@   safety C14 C06
+//@   ensures @sum [C14] result == sum.v3(seq(t.Token), heap("HS.cashu.Proof"), len(t.Token)) % 18446744073709551616
+//@   loop 1 invariant 0 <= idx && idx <= len(t.Token) && totalAmount == sum.v3(seq(t.Token), heap("HS.cashu.Proof"), idx) % 18446744073709551616
+//@   loop 2 invariant 0 <= idx && idx <= len(tokenProof.Proofs) && totalAmount == (sum.v3(seq(t.Token), heap("HS.cashu.Proof"), local(idx1, int)) + sum.proof.amount(seq(tokenProof.Proofs), idx)) % 18446744073709551616
+
+//@ func (TokenV4).Proofs
+//@   tags C14
+//@   safety C14 C06
+//@   fresh
+//@   ensures @sum [C14] sum.proof.amount(seq(result), len(result)) == sum.v4(seq(t.TokenProofs), heap("HS.cashu.ProofV4"), len(t.TokenProofs))
+
+//@ func (TokenV4).Amount
+//@   tags C14
+//@   safety C14 C06
+//@   ensures @sum [C14] result == sum.v4(seq(t.TokenProofs), heap("HS.cashu.ProofV4"), len(t.TokenProofs)) % 18446744073709551616
+//@   loop range(proofs) invariant 0 <= i && i <= len(proofs) && totalAmount == sum.proof.amount(seq(proofs), i) % 18446744073709551616
+
+//@ func NewTokenV3
+//@   tags C14 C08
+//@   safety C14 C06
+//@   loop 1 invariant 0 <= i
+//@   ensures @nodleq [C14,C08] err == nil && !includeDLEQ ==> (forall k :: 0 <= k && k < len(proofs) ==> proofs[k].DLEQ == nil)
+
+//@ func NewTokenV4
+//@   tags C14 C08
+//@   safety C14 C06
+
+//@ func AmountSplit
+//@   tags C18 C14
+//@   safety C06 C18
